@@ -4,7 +4,8 @@ A case is a SESSION on a real rope project in a scratch directory: an initial tr
 a script of History operations (do of a change template, undo()/redo(), selective undo/redo of a listed
 change, drop=True).  Sessions come from
   * the exhaustive family: every word of length <= D over the 7-letter alphabet of change templates
-    (edit, edit below a folder, create file, move file, move folder, nested set, a real Rename), each
+    (edit, edit below a folder, create file, move file, move folder, nested set, a real Rename; the names share
+    leading characters without being nested: d.txt / d, b.txt / b.txt2, d / d2), each
     followed by the selective undo of EVERY listed position and a selective redo, plus a plain
     undo/redo/drop tail under the limits 0,1,2,3;
   * random sessions of up to 40 operations (all operation kinds, limits in {0,1,2,3,100}, plus a stream
@@ -28,6 +29,7 @@ PROPERTY = "C11"
 
 SIG_REMOVE = ("remove-not-undoable: undoing a history entry that contains a RemoveResource raises "
               "NotImplementedError (RemoveResource.undo is not implemented)")
+# (fixed in /repo by ed5101e: no open finding carries this signature any more, a hit is a VIOLATION)
 SIG_ALIAS = ("class-blind-dependency: the dependency scan compares resources by class and path, so a later change "
              "reaching the same path (or a path below it) through a resource of the other class (File vs Folder) is "
              "not undone with the chosen change")
@@ -187,10 +189,10 @@ def judge(ses, replay_oracle=True):
                 cls = SIG_DROP
             elif 7 in st.codes and any(L.has_remove(src_specs[j]) for j in range(i, len(src_specs))):
                 cls = SIG_REMOVE
-            elif not coherent:
-                cls = SIG_ALIAS
             elif any(snaps.get(id(src_objs[j]), (0, 0, False))[2] for j in closure):
                 cls = SIG_OVERWRITE
+            elif not coherent:
+                cls = SIG_ALIAS
             if not tainted:
                 bad(idx, "%s-raised" % st.kind, "%s of listed position %d raised %s" % (st.kind, i, st.exc_repr), cls)
             tainted = True
@@ -200,7 +202,8 @@ def judge(ses, replay_oracle=True):
         deps = list(st.deps or [])
         R = list(st.returned_objs or [])
         irrev_involved = any(snaps.get(id(o), (0, 0, False))[2] for o in R)
-        cls_hint = (SIG_DROP if stale else SIG_ALIAS if not coherent else SIG_OVERWRITE if irrev_involved else None)
+        cls_hint = (SIG_DROP if stale else SIG_ALIAS if (not coherent and sorted(deps) != closure)
+                    else SIG_OVERWRITE if irrev_involved else None)
         if -1 in deps or not deps or i not in deps:
             bad(idx, "bookkeeping", "%s returned changes that were not listed / not the chosen one: %r" % (st.kind, deps))
             tainted = True
@@ -328,7 +331,7 @@ def replay(ctx, obj):
         return bool(vs)
     if obj.get("kind") == "mismatch":
         ses = L.run_session(obj["tree"], obj["limit"], obj["script"])
-        return all(evaluate(ctx, [ses], bp)[0][0] for bp in ("false", "true"))
+        return bool(evaluate(ctx, [ses], EXPECTED_DEP)[0][0])
     return True
 
 
@@ -343,8 +346,9 @@ def describe(word):
     return step, ", ".join(t for b, t in MISMATCH_BITS.items() if word & b)
 
 
-DEP_VARIANTS = {"false": "as found: _depends_on compares resources by class and path",
-                "true": "repaired: _depends_on compares paths only"}
+DEP_VARIANTS = {"false": "as found before /repo ed5101e: _depends_on compares resources by class and path",
+                "true": "expected: _depends_on compares paths only (equal, below or above, on path segments)"}
+EXPECTED_DEP = "true"
 
 
 def evaluate(ctx, sessions, bp="false"):
@@ -378,7 +382,7 @@ def decide_variant(ctx, sessions):
     for bp in ("false", "true"):
         words, _ = evaluate(ctx, sessions, bp)
         res[bp] = sum(1 for w in words if w)
-    best = min(("false", "true"), key=lambda b: res[b])
+    best = min(("true", "false"), key=lambda b: res[b])
     return best, res
 
 
@@ -402,6 +406,7 @@ def run(ctx):
     reported = {}
     stats = [0, 0, 0, 0]
     bp = None
+    regress_note = ""
     n_sessions = n_mism = 0
     samples = []
     CHUNK = 9000
@@ -449,9 +454,16 @@ def run(ctx):
         rep = [i for i, s in enumerate(sessions) if L.representable(s)]
         ctx.count("sessions_unrepresentable", len(sessions) - len(rep))
         if bp is None:
-            bp, per_variant = decide_variant(ctx, [sessions[i] for i in rep if i < n_cat])
-            ctx.extra["model_variant_matching_code"] = {"dependency_test": bp, "meaning": DEP_VARIANTS[bp],
+            # the model runs with the EXPECTED dependency test (paths only, /repo ed5101e); the catalogue is also
+            # evaluated under the as-found test, only to say in the evidence which variant the code behaves as
+            best, per_variant = decide_variant(ctx, [sessions[i] for i in rep if i < n_cat])
+            bp = EXPECTED_DEP
+            ctx.extra["model_variant_matching_code"] = {"dependency_test": best, "meaning": DEP_VARIANTS[best],
+                                                        "expected": EXPECTED_DEP,
                                                         "mismatching_catalogue_sessions_per_variant": per_variant}
+            if best != EXPECTED_DEP:
+                regress_note = (" [the code behaves as the dependency test found before /repo ed5101e: resources "
+                                "compared by class and path]")
         words, st4 = evaluate(ctx, [sessions[i] for i in rep], bp)
         stats = [x + y for x, y in zip(stats, st4)]
         mism = [(i, w) for i, w in zip(rep, words) if w]
@@ -466,7 +478,8 @@ def run(ctx):
                                      "rope/base/history.py + change.py): the model and the code disagree at this step (all words "
                                      "up to the exhaustive depth were enumerated; the oracle verdicts of the session are listed), "
                                      "theorems C11_* no longer speak about the code"},
-                          "C11: model and rope differ on %s at step %d of a %s session" % (what, step, fam[i]), no_input=True)
+                          "C11: model and rope differ on %s at step %d of a %s session%s" % (what, step, fam[i], regress_note),
+                          no_input=True)
         if ctx.too_many(9):
             break
         samples = samples[:2] + sessions[-1:]
